@@ -100,7 +100,7 @@ def gen_doc_bytes(rng: random.Random) -> bytes:
     return body.encode("utf-8")
 
 
-def gen_invocation(rng: random.Random, files_now: list[str]) -> dict[str, Any]:
+def gen_invocation(rng: random.Random, files_now: list[str], forced: tuple[str, dict[str, Any]] | None = None) -> dict[str, Any]:
     """files_now: document names that exist at generation time (the model may differ later)."""
     o = gen_opts(rng)
     form = rng.choices(
@@ -109,6 +109,16 @@ def gen_invocation(rng: random.Random, files_now: list[str]) -> dict[str, Any]:
          "err_inplace_stdin_first", "err_inplace_file_then_stdin", "dontcare_o_single", "mixed_stdin_file"],
         [12, 9, 7, 10, 8, 8, 7, 6, 6, 4, 7, 4, 1, 1, 1, 2, 2, 1, 2, 2, 2],
     )[0]
+    force_several = False
+    force_nb: bool | None = None
+    if forced is not None:
+        form, o = forced[0], dict(forced[1])
+        if form == "multi_inplace_nb":
+            form, force_nb = "multi_inplace", True
+        elif form == "multi_inplace":
+            force_nb = False
+        elif form == "auto_several":
+            form, force_several = "auto", True
     inv: dict[str, Any] = {"form": form, "opts": o}
     f1 = rng.choice(files_now)
     several = rng.sample(files_now, min(len(files_now), rng.randint(2, 3)))
@@ -134,7 +144,9 @@ def gen_invocation(rng: random.Random, files_now: list[str]) -> dict[str, Any]:
         inv["argv"] = place(flags, [f1])
         inv["files"] = [f1]
     elif form == "auto":
-        fs = [f1] if rng.random() < 0.6 else several
+        fs = [f1] if (rng.random() < 0.6 and not force_several) else several
+        if forced is not None and not force_several:
+            fs = [f1]
         inv["argv"] = place(["--auto"], fs, auto=True)
         inv["files"] = fs
     elif form == "stdin_stdout":
@@ -149,7 +161,7 @@ def gen_invocation(rng: random.Random, files_now: list[str]) -> dict[str, Any]:
         inv["argv"] = place([], several)
         inv["files"] = several
     elif form == "multi_inplace":
-        nb = rng.random() < 0.5
+        nb = rng.random() < 0.5 if force_nb is None else force_nb
         inv["argv"] = place(["-i"] + (["--nobackup"] if nb else []), several)
         inv["files"] = several
         inv["nobackup"] = nb
@@ -234,7 +246,25 @@ def gen_knobs(rng: random.Random) -> dict[str, Any]:
     }
 
 
-def gen_case(run_seed: int, tier: str) -> dict[str, Any]:
+GEN_TAKES_INDEX = True
+_CELL_FORMS = ["stdout", "multi_stdout", "stdin_stdout", "stdin_o", "inplace", "inplace_nobackup", "multi_inplace", "multi_inplace_nb", "auto", "auto_several"]
+
+
+def systematic_point(index: int) -> tuple[str, dict[str, Any]]:
+    """Thorough tier: run index -> one point of the property's finite option space (complete sweep)."""
+    v = index % SPACE_OPTION_VECTORS
+    cell = (index // SPACE_OPTION_VECTORS) % len(_CELL_FORMS)
+    o: dict[str, Any] = {}
+    o["width"] = corpus.WIDTHS[v % len(corpus.WIDTHS)]
+    v //= len(corpus.WIDTHS)
+    for name in ("plaintext", "semantic", "cleanups", "smartquotes", "ellipses"):
+        o[name] = bool(v & 1)
+        v >>= 1
+    o["list_spacing"] = corpus.LIST_SPACINGS[v % len(corpus.LIST_SPACINGS)]
+    return _CELL_FORMS[cell], o
+
+
+def gen_case(run_seed: int, tier: str, index: int | None = None) -> dict[str, Any]:
     w = sub_rng(run_seed, "workload")
     names = list(DOC_NAMES)
     w.shuffle(names)
@@ -244,8 +274,9 @@ def gen_case(run_seed: int, tier: str) -> dict[str, Any]:
         tree["keep.txt"] = {"f": b2j(b"not markdown\n")}
     k = sub_rng(run_seed, "knobs")
     invs = []
-    for _ in range(w.choice([1, 2, 3, 3, 4, 6])):
-        inv = gen_invocation(w, names)
+    for j in range(w.choice([1, 2, 3, 3, 4, 6])):
+        forced = systematic_point(index) if (tier == "thorough" and index is not None and j == 0) else None
+        inv = gen_invocation(w, names, forced)
         inv["knobs"] = gen_knobs(k)
         inv["uid_seed"] = k.getrandbits(32)
         invs.append(inv)
@@ -560,6 +591,28 @@ def chunk_class(ip: simproc.Interposer) -> str:
     return f"{k.get('chunking')}/buf{k.get('bufsize')}/{'eintr' if any(n.startswith('eintr') for n in lf) else 'noeintr'}/{'short' if any(n.startswith('short') for n in lf) else 'full'}"
 
 
+def space_cell(inv: dict[str, Any]) -> str | None:
+    """Cell of the property's finite space {stdout,-o,inplace,inplace+nobackup,auto} x {file,stdin,several}."""
+    form = inv["form"]
+    table = {
+        "stdout": "stdout/file", "multi_stdout": "stdout/several", "stdin_stdout": "stdout/stdin", "mixed_stdin_file": "stdout/several",
+        "stdin_o": "-o/stdin", "inplace": "inplace/file", "inplace_nobackup": "inplace+nobackup/file",
+    }
+    if form in table:
+        return table[form]
+    if form == "multi_inplace":
+        return ("inplace+nobackup" if inv.get("nobackup") else "inplace") + "/several"
+    if form == "auto":
+        return "auto/" + ("file" if len(inv.get("files", [])) == 1 else "several")
+    if form in ("dir", "glob"):
+        return {"stdout": "stdout", "inplace": "inplace", "inplace_nobackup": "inplace+nobackup", "auto": "auto"}[inv["sub"]] + "/several"
+    return None
+
+
+SPACE_CELLS = 10  # valid (mode, input kind) cells; the other 5 are the usage errors / don't-care
+SPACE_OPTION_VECTORS = len(corpus.WIDTHS) * 2**5 * len(corpus.LIST_SPACINGS)
+
+
 def spelled_out(argv: list[str]) -> list[str]:
     i = argv.index("--auto")
     return argv[:i] + ["--inplace", "--nobackup", "--semantic", "--cleanups", "--smartquotes", "--ellipses"] + argv[i + 1 :]
@@ -582,6 +635,7 @@ def _run_case(case: dict[str, Any], scratch: str, want_trace: bool) -> dict[str,
     violations: list[dict[str, Any]] = []
     counters: dict[str, Any] = {"histories": 1, "invocations": 0, "forms": {}, "legal_fires": {}, "usage_errors_checked": 0, "twin_runs": 0, "discriminating_invocations": 0, "listing_permuted": 0, "fs_ops": 0}
     points: set[str] = set()
+    space_points: set[str] = set()
     chunk_classes: set[str] = set()
     forms: set[str] = set()
     trace: list[Any] = []
@@ -612,6 +666,9 @@ def _run_case(case: dict[str, Any], scratch: str, want_trace: bool) -> dict[str,
         ov = [inv["opts"][k] for k in OPT_KEYS]
         point = digest([form, inv.get("sub"), (inv.get("api") or {}).get("fn"), ov, cc], 12)
         points.add(digest([form, inv.get("sub"), ov], 12))
+        cell = space_cell(inv)
+        if cell is not None and inv["opts"]["width"] in corpus.WIDTHS:
+            space_points.add(cell + "|" + "/".join(str(x) for x in ov))
         disc = any(model.discriminating(d, o) for d, o in pred.formatted[:2])
         if disc:
             counters["discriminating_invocations"] += 1
@@ -701,6 +758,7 @@ def _run_case(case: dict[str, Any], scratch: str, want_trace: bool) -> dict[str,
         "nontrivial_points": sorted(nontrivial_points),
         "counters": counters,
         "points": sorted(points),
+        "space_points": sorted(space_points),
         "chunk_classes": sorted(chunk_classes),
         "forms": sorted(forms),
     }
@@ -709,7 +767,7 @@ def _run_case(case: dict[str, Any], scratch: str, want_trace: bool) -> dict[str,
     return res_d
 
 
-SET_KEYS = ("points", "chunk_classes", "forms", "nontrivial_points")
+SET_KEYS = ("points", "chunk_classes", "forms", "nontrivial_points", "space_points")
 
 
 def _real_cli_history(case: dict[str, Any], scratch: str, inproc: list[tuple[Any, bytes, dict[str, bytes]]]) -> dict[str, Any] | None:
@@ -762,6 +820,11 @@ def evidence_extras(counters: dict[str, Any], sets: dict[str, set[str]], runs: d
         "histories": counters.get("histories", 0),
         "distinct_nontrivial": len(sets.get("nontrivial_points", ())),
         "distinct_form_x_option_vector_points": len(sets.get("points", ())),
+        "property_option_space": {
+            "points_covered": len(sets.get("space_points", ())),
+            "points_total": SPACE_CELLS * SPACE_OPTION_VECTORS,
+            "definition": "valid (mode, input kind) cells {stdout,-o,inplace,inplace+nobackup,auto} x {file,stdin,several} (10 of 15; the rest are usage errors) x 6 widths x 2^5 switches x 3 list spacings",
+        },
         "distinct_chunking_classes": sorted(sets.get("chunk_classes", ()))[:60],
         "forms_exercised": sorted(sets.get("forms", ())),
         "legal_io_fires": counters.get("legal_fires", {}),
